@@ -1,7 +1,7 @@
 (* Properties/C13.v — ARP spoofing is confined to hunted hosts and undone on StopHunt.
    Only statements, each closed by [exact] of a lemma proved in Proofs/ArpSpoof.v.
    Model: Model/ArpSpoof.v (event system transcribed from handlers/arp_spoofer). *)
-From PV Require Import Base.Prelude Model.ArpSpoof Spec.ArpSpoof Proofs.ArpSpoof.
+From PV Require Import Base.Prelude Model.ArpSpoof Spec.ArpSpoof Proofs.ArpSpoof Proofs.ArpSpoofMonitor Proofs.ArpSpoofTimed.
 Open Scope N_scope.
 
 (* ---- confinement ----
@@ -101,6 +101,36 @@ Theorem C13_hunted_wake_announces : forall c s i a,
 Proof. exact hunted_wake_announces. Qed.
 Print Assumptions C13_hunted_wake_announces.
 
+(* ---- ... within one cycle ----
+   Timed runs; real time enters ONLY through the named fairness hypothesis [fair c P tr] (Model/ArpSpoof.v:
+   a running loop passes its select within one ticker period P while the run is observed).  If StopHunt of
+   a's MAC happens at time t while loop i (started for a) runs and the handler is open, the run is observed
+   until t+P, and until then there is neither a Close nor a new StartHunt of that MAC, then by t+P loop i has
+   woken up, that wake-up emitted exactly the restoring packet, and the loop has returned. *)
+Theorem C13_stop_undone_within_one_cycle : forall c P tr k t a i,
+  cfg_ok c -> time_ordered tr -> fair c P tr ->
+  nth_error tr k = Some (t, StopHunt (amac a)) ->
+  loop_is (state_before c tr k) i a true -> closed (state_before c tr k) = false ->
+  observed_until tr (t + P) ->
+  (forall j t' e, (k < j)%nat -> nth_error tr j = Some (t', e) -> (t' <= t + P)%Z ->
+                  is_close e = false /\ is_start_of (amac a) e = false) ->
+  exists j t', (k < j)%nat /\ nth_error tr j = Some (t', Wake i) /\ (t' <= t + P)%Z /\
+    output_at c tr j = Some [restore c (amac a)] /\
+    loop_is (state_before c tr (S j)) i a false.
+Proof. exact stop_undone_timed. Qed.
+Print Assumptions C13_stop_undone_within_one_cycle.
+
+Example C13_stop_undone_within_one_cycle_nonvacuous :
+  cfg_ok wit_cfg /\ time_ordered wit_timed /\ fair wit_cfg 6000 wit_timed /\
+  nth_error wit_timed 2 = Some (1000%Z, StopHunt (amac (mkAddr wit_m1 3232235522))) /\
+  loop_is (state_before wit_cfg wit_timed 2) 0 (mkAddr wit_m1 3232235522) true /\
+  closed (state_before wit_cfg wit_timed 2) = false /\
+  observed_until wit_timed (1000 + 6000) /\
+  output_at wit_cfg wit_timed 3 = Some [restore wit_cfg wit_m1] /\
+  output_at wit_cfg wit_timed 4 = Some [].
+Proof. exact stop_undone_timed_nonvacuous. Qed.
+Print Assumptions C13_stop_undone_within_one_cycle_nonvacuous.
+
 (* a loop that has returned stays returned and silent, whatever happens (any state) *)
 Theorem C13_dead_loop_silent : forall c s e i a,
   loop_is s i a false ->
@@ -129,3 +159,15 @@ Example C13_close_stops_nonvacuous :
           (mkAddr wit_m1 3232235522) false.
 Proof. exact close_stops_nonvacuous. Qed.
 Print Assumptions C13_close_stops_nonvacuous.
+
+(* ---- Spec = Model on every run ----
+   The monitor of Spec/ArpSpoof.v is the property text as a checker of observed runs (its own bookkeeping of
+   hunted MACs, offers, Close and loops; clauses: confinement, probe-reject iff, spoof reply iff, StartHunt
+   sends nothing, a loop whose MAC is no longer hunted restores and ends at its wake-up, terminated loops are
+   silent, nothing after Close).  It raises no violation on ANY run of the model.  The same monitor judges
+   the implementation's observations in the correspondence run (column 2 of the dispatch). *)
+Theorem C13_monitor_accepts_model : forall c evs,
+  cfg_ok c ->
+  Forall (fun v => v = []) (sp_run c sp_init (observed (trace c init_state evs))).
+Proof. exact monitor_accepts_model. Qed.
+Print Assumptions C13_monitor_accepts_model.
